@@ -398,4 +398,10 @@ def r3_13(ctx):
     _borrow(ctx, r6_4, "R6.4", "R3.13", " [the SGR parameters written for a segment are those of the COMBINED style of its layers: a later layer's explicit `on default` must override an earlier background (49, not 44)]")
 
 
-RULES = [r3_1, r3_2, r3_3, r3_4, r3_5, r3_6, r3_7, r3_8, r3_9, r3_10, r3_11, r3_12, r3_13]
+def r3_14(ctx):
+    from .c18 import r18_10
+    from .common import borrow as _borrow
+    _borrow(ctx, r18_10, "R18.10", "R3.14", " [the colour parameters in the stream are those of the documented down-conversion of the segment's colour]")
+
+
+RULES = [r3_1, r3_2, r3_3, r3_4, r3_5, r3_6, r3_7, r3_8, r3_9, r3_10, r3_11, r3_12, r3_13, r3_14]
